@@ -924,6 +924,13 @@ func (w *c05World) buildBatch(p *c05Prop) (*order.Batch, string, bool, error) {
 			newOp = "@" // filled in below, once the tx is complete
 		} else {
 			diff.EndingState = auctioneerrpc.AccountDiff_OUTPUT_FULLY_SPENT
+			// a used-up account keeps its script but is stored with
+			// the (dust) ending balance as its value
+			if cur, err := acct.Output(); err == nil {
+				newOut = strconv.Itoa(c05Out(w, &wire.TxOut{
+					Value: int64(diff.EndingBalance), PkScript: cur.PkScript,
+				}))
+			}
 		}
 		batch.AccountDiffs = append(batch.AccountDiffs, diff)
 		diffToks = append(diffToks, fmt.Sprintf("%d:%s:%d:%s", a.id, newOp, diff.NewVersion, newOut))
